@@ -178,6 +178,12 @@ func (d *HTTPProxyDialer) DialContextR(ctx context.Context, network, addr string
 		conn.Close()
 		return nil, nil, err
 	case res := <-resCh:
+		if res.StatusCode/100 == 2 {
+			// A successful response to CONNECT has no body: what follows its header is the tunnel.
+			// Content-Length and Transfer-Encoding must be ignored (RFC 9110, section 9.3.6),
+			// closing a body framed by them would consume bytes of the tunnel.
+			res.Body = http.NoBody
+		}
 		return res, conn, nil
 	}
 }
